@@ -114,13 +114,25 @@ Fixpoint first_diff (i : N) (s : fstate) (tr : trace) : option N :=
   end.
 
 (* coarse mode: the writes of the local side race with the reset of the
-   connection, so only the outcome of the model (with failing and with working
-   writes) and the property are judged *)
-Definition relax (o : op) : op := match o with ORecvFail m => ORecv m | _ => o end.
-Definition model_ok (chg : bool) (tr : trace) : bool :=
-  match out_of (run repaired (init chg) (map fst tr)), out_of (run repaired (init chg) (map (fun e => relax (fst e)) tr)) with
-  | Ok, Ok => true
-  | _, _ => false
+   connection.  A reset is explained either by ORecvFail (the writes fail, then
+   the reader fails) or by ORecv followed by ODrop (the writes got through);
+   the set of model states that explain the observed client states so far is
+   carried along, and must never become empty. *)
+Definition alts (o : op) : list (list op) :=
+  match o with ORecvFail m => [[ORecvFail m]; [ORecv m; ODrop]] | _ => [[o]] end.
+Definition run_state (s : fstate) (ops : list op) : list fstate :=
+  match run repaired s ops with (s', _, Ok) => [s'] | _ => [] end.
+Fixpoint coarse (i : N) (cands : list fstate) (tr : trace) : option N :=
+  match tr with
+  | [] => None
+  | (o, ob) :: r =>
+      let next := flat_map (fun s => flat_map (run_state s) (alts o)) cands in
+      let keep := if o_alive ob && o_responsive ob
+                  then filter (fun s' => state_eqb s' (o_state ob)) next else next in
+      match keep with
+      | [] => Some i
+      | _ => coarse (N.succ i) keep r
+      end
   end.
 
 Fixpoint first_bad (i : N) (tr : trace) : N :=
@@ -129,7 +141,7 @@ Fixpoint first_bad (i : N) (tr : trace) : N :=
   | (_, ob) :: r => if o_alive ob && o_responsive ob && o_bystander ob then first_bad (N.succ i) r else i
   end.
 
-(* id, mode (0: compare every step with the model; 1: coarse), changeRoomId of
+(* id, mode (0: compare every step with the model; 1: coarse; 2: property only), changeRoomId of
    the client, trace.  Verdict codes: 1 = model and implementation differ at
    that step, 2 = the implementation's trace violates P_C12. *)
 Definition case := (N * N * bool * trace)%type.
@@ -139,7 +151,8 @@ Definition judge (c : case) : list (N * N * N) :=
   let '(id, mode, chg, tr) := c in
   (match mode with
    | 0%N => match first_diff 0 (init chg) tr with Some i => [(id, 1%N, i)] | None => [] end
-   | _ => if model_ok chg tr then [] else [(id, 1%N, 0%N)]
+   | 1%N => match coarse 0 [init chg] tr with Some i => [(id, 1%N, i)] | None => [] end
+   | _ => []                        (* stress: property only *)
    end) ++
   (if P_C12 tr then [] else [(id, 2%N, first_bad 0 tr)]).
 
